@@ -60,6 +60,20 @@ def cfgFor (emb : Option Key) (embDid : String) : Nuts.C09.Cfg :=
 def entryCfg : EntryCfg :=
   { payloadEventType := Nuts.Facts.C09.payloadEventType, didDocumentType := Nuts.Facts.C09.didDocumentType }
 
+/-- the harness's fault names: "db" | "other" (Add) | "lookup-db:<k>" | "lookup-other:<k>" | "lookup-db:all" | "lookup-other:all" -/
+def parseFault (s : String) (nPrevs : Nat) : Option AddFault :=
+  match s.splitOn ":" with
+  | ["db"] => some { name := "db", isDb := true }
+  | ["other"] => some { name := "other", isDb := false }
+  | [kind, k] =>
+    let db := kind == "lookup-db"
+    if kind == "lookup-db" || kind == "lookup-other" then
+      let nm := if db then "db" else "other"
+      if k == "all" then some { name := nm, isDb := db, site := .lookup (List.range nPrevs) true }
+      else some { name := nm, isDb := db, site := .lookup [k.toNat!] false }
+    else none
+  | _ => none
+
 structure St where
   store : Store := {}
   verify : Bool := true
@@ -146,13 +160,18 @@ def step (st : St) (j : Json) : St × List String :=
       -- handleNetworkEvent), possibly against a DID store whose Add fails
       let evj := jObj j "ev"
       let ev : DagEvent := { evType := jStr evj "type", payloadType := jStr evj "ptype", tx := tx, payload := pd }
-      let f : Option AddFault := match jStr evj "fault" with
-        | "db" => some { name := "db", isDb := true }
-        | "other" => some { name := "other", isDb := false }
-        | _ => none
+      let f : Option AddFault := parseFault (jStr evj "fault") tx.prevs.length
       let (s', ack) := notify entryCfg Nuts.Facts.C09.networkEventFatalUnlessDatabaseError c st.store ev f
       -- filtered or not, the transaction is on the DAG: a later REPROCESS hands it to `callback`
       let st := { st with seen := st.seen ++ [(jNat j "i", tx, pd, embDid)] }
+      -- was the failing store call executed? (Add: the delivery got as far as didStore.Add)
+      let hit : Bool := match ack, f with
+        | some _, some ft =>
+          (match ft.site with
+           | .add => (match callback c st.store tx pd with | .ok _ => true | .err e => isStoreErr e | .panic _ => false)
+           | .lookup _ _ => faultHit c st.store tx pd f)
+        | _, _ => false
+      let flag := if hit then " FAULT-HIT" else ""
       match ack with
       | none => (st, [s!"{hdr} filtered [db-same] ="])
       | some .finished =>
@@ -163,7 +182,7 @@ def step (st : St) (j : Json) : St × List String :=
         let o := observe st'
         let shown := if o == st.lastObs then "=" else o
         ({ st' with lastObs := o }, [s!"{hdr} ok [{if dup then "db-same" else "db-changed"}] {shown}"])
-      | some a => (st, [s!"{hdr} {a.render} [db-same] ="])
+      | some a => (st, [s!"{hdr} {a.render} [db-same{flag}] ="])
     else
     let r := if cbOnly then callback c st.store tx pd else deliver c st.store tx pd
     let st := { st with seen := st.seen ++ [(jNat j "i", tx, pd, embDid)] }
